@@ -11,7 +11,8 @@
 (*               floats keep their sign bit; ObsEq compares such values.     *)
 (*  Impl-shaped: Code.GlobalState.get_py_const / dedup_const_index as a      *)
 (*               state machine (Intern actions in program order; the first   *)
-(*               constant with a key creates the slot, later ones reuse it)  *)
+(*               constant with a key creates the slot, later ones reuse it;  *)
+(*               every nested container has a slot of its own: InternG)      *)
 (*               and Key(c), the transcription of ExprNodes.make_dedup_key   *)
 (*               UNDER PYTHON EQUALITY AND HASHING of the key (which is what *)
 (*               the dict lookup does): an item is (node type, value up to   *)
@@ -49,7 +50,7 @@ vars == <<hist, grp>>
 
 ---------------------------------------------------------------------------
 (* atoms: Python type, equality class (==), sign bit *)
-PyType(n) == CASE n \in {"0", "1", "2", "B", "W"} -> "int"
+PyType(n) == CASE n \in {"0", "1", "2", "B", "W", "T"} -> "int"
                [] n \in {"0.0", "-0.0", "1.0", "Bf"} -> "float"
                [] n \in {"False", "True"} -> "bool"
                [] n = "None" -> "NoneType" [] n = "'s'" -> "str" [] n = "b's'" -> "bytes"
@@ -58,6 +59,7 @@ EqClass(n) == CASE n \in {"0", "0.0", "-0.0", "False"} -> "n0"
                 [] n = "2" -> "n2"
                 [] n \in {"B", "Bf"} -> "nB"           \* 2147483648 and 2147483648.0
                 [] n = "W" -> "nW"                     \* 2**64 + 1
+                [] n = "T" -> "nT"                     \* the tag: an int different from every other one
                 [] OTHER -> n
 \* type of the literal node after coercion to a Python object (IntNode -> int, FloatNode -> float, ...)
 NodeType(n) == CASE PyType(n) = "int" -> "PyLong" [] PyType(n) = "float" -> "PyFloat" [] PyType(n) = "bool" -> "PyBool"
@@ -140,6 +142,31 @@ Shared(a, b) == Key(a) # NoKey /\ Key(a) = Key(b)
 FShared(a, b) == FKey(a) # NoKey /\ FKey(a) = FKey(b)
 
 ---------------------------------------------------------------------------
+(* the pool: get_py_const + the code that initialises a new constant.  Every literal container node,   *)
+(* at any depth, asks the pool for a slot with its own key; a hit returns the constant that created the *)
+(* slot (its items are not looked at again), a miss builds the constant from the slots of its items.    *)
+(* A pool is a set of <<key, constant as built>>.                                                        *)
+RECURSIVE InternG(_, _, _), InternItems(_, _, _)
+InternG(pool, c, fixed) ==
+  IF c.k = "atom" THEN [pool |-> pool, val |-> c]
+  ELSE LET k == TopKeyG(c, fixed) IN
+       IF k # NoKey /\ \E e \in pool : e[1] = k
+       THEN [pool |-> pool, val |-> (CHOOSE e \in pool : e[1] = k)[2]]
+       ELSE LET r == InternItems(pool, c.items, fixed)
+                v == C(c.k, c.a, c.m, r.vals)
+            IN [pool |-> IF k # NoKey THEN r.pool \cup {<<k, v>>} ELSE r.pool, val |-> v]
+InternItems(pool, items, fixed) ==
+  IF items = <<>> THEN [pool |-> pool, vals |-> <<>>]
+  ELSE LET h == InternG(pool, Head(items), fixed)
+           t == InternItems(h.pool, Tail(items), fixed)
+       IN [pool |-> t.pool, vals |-> <<h.val>> \o t.vals]
+
+\* what the function written with `a` returns in a module that contains only a ...
+Alone(a, fixed) == InternG({}, a, fixed).val
+\* ... and what the function written with b returns when a comes first
+After(a, b, fixed) == InternG(InternG({}, a, fixed).pool, b, fixed).val
+
+---------------------------------------------------------------------------
 (* root causes *)
 RECURSIVE ZN(_), SetEq(_, _)
 ZN(c) == IF c.k = "atom" THEN (IF c.a = "-0.0" THEN Atom("0.0") ELSE c)       \* forget the sign of float zeros
@@ -149,8 +176,8 @@ SetEq(x, y) ==                                                                \*
   ELSE IF x.k = "fset" THEN /\ \A i \in 1..Len(x.items) : \E j \in 1..Len(y.items) : SetEq(x.items[i], y.items[j])
                             /\ \A j \in 1..Len(y.items) : \E i \in 1..Len(x.items) : SetEq(x.items[i], y.items[j])
   ELSE Len(x.items) = Len(y.items) /\ \A i \in 1..Len(x.items) : SetEq(x.items[i], y.items[i])
-\* why a shared pair is a hazard ("none": not shared, or indistinguishable)
-Cause(a, b) == IF ~Shared(a, b) \/ ObsEq(a, b) THEN "none" ELSE IF ObsEq(ZN(a), ZN(b)) THEN "zero-sign" ELSE "fset-order"
+\* why the constant `got` that a function returns differs from the constant `c` it was written with
+Cause(c, got) == IF ObsEq(c, got) THEN "none" ELSE IF ObsEq(ZN(c), ZN(got)) THEN "zero-sign" ELSE "fset-order"
 
 ---------------------------------------------------------------------------
 (* the universe *)
@@ -213,36 +240,78 @@ Next == InternFirst \/ InternEqualVariant \/ InternAny \/ PickGroup \/ InternRea
 Spec == Init /\ [][Next]_vars
 
 ---------------------------------------------------------------------------
-\* the pool after the history <<a, b>>: a creates its slot; b reuses it iff Shared(a, b), and then
-\* the function written with b returns a
 Pair == Mode # "real" /\ Len(hist) = 2
+A == hist[1]
+B == hist[2]
 
 (* sharing never goes beyond Python equality ...                             *)
-KeyImpliesPyEq == Pair => (Shared(hist[1], hist[2]) => PyEq(hist[1], hist[2]))
-(* ... and what it merges wrongly is exactly: sign of float zeros, order of equal frozenset members *)
-MergeExplained == Pair => (Shared(hist[1], hist[2]) => SetEq(ZN(hist[1]), ZN(hist[2])))
+KeyImpliesPyEq == Pair => (Shared(A, B) => PyEq(A, B))
+(* ... and whatever the pool hands out differs from what was written at most in the sign of float zeros *)
+(* and in the order / multiplicity of equal frozenset members (this characterises the defect)          *)
+MergeExplained == /\ Len(hist) >= 1 /\ Mode # "real" => SetEq(ZN(Alone(A, FALSE)), ZN(A))
+                  /\ Pair => SetEq(ZN(After(A, B, FALSE)), ZN(B))
+(* a top-level hit hands out exactly what the first constant evaluates to    *)
+HitReturnsFirst == Pair => (Shared(A, B) => After(A, B, FALSE) = Alone(A, FALSE))
 (* equal constants written the same way are shared (the pool does its job)   *)
-SameTextShared == Pair => ((hist[1] = hist[2] /\ Key(hist[1]) # NoKey) => Shared(hist[1], hist[2]))
-(* the repaired key merges only what CPython cannot tell apart, and still shares identical constants *)
-FixedKeySound == Pair => (FShared(hist[1], hist[2]) => ObsEq(hist[1], hist[2]))
-FixedKeyShares == Pair => ((hist[1] = hist[2] /\ Key(hist[1]) # NoKey) => FShared(hist[1], hist[2]))
+SameTextShared == Pair => ((A = B /\ Key(A) # NoKey) => Shared(A, B))
+(* the repaired key hands out only what CPython cannot tell apart from what was written, and still     *)
+(* shares identical constants                                                                          *)
+FixedKeySound == /\ Len(hist) >= 1 /\ Mode # "real" => ObsEq(Alone(A, TRUE), A)
+                 /\ Pair => ObsEq(After(A, B, TRUE), B)
+FixedKeyShares == Pair => ((A = B /\ Key(A) # NoKey) => FShared(A, B))
 (* reference sanity: ObsEq refines PyEq; Obs of a constant is a fixed point  *)
-ObsRefinesEq == Pair => (ObsEq(hist[1], hist[2]) => PyEq(hist[1], hist[2]))
+ObsRefinesEq == Pair => (ObsEq(A, B) => PyEq(A, B))
 ObsIdempotent == Len(hist) >= 1 => ObsEq(Obs(hist[Len(hist)]), hist[Len(hist)])
 
-Hazard == Pair /\ Shared(hist[1], hist[2]) /\ ~ObsEq(hist[1], hist[2])
+(* Tagging: the binding may add one and the same fresh int ("T", a different number for every pair) as  *)
+(* an extra item to every container of both constants of a pair (as the step of a slice without one).   *)
+(* Then no container of one pair can meet a container of another pair in the pool, so any number of     *)
+(* pairs can be replayed in one module.  The lemma says that the verdicts do not change (the expected   *)
+(* value of a tagged constant is Obs(Tagged(c)) in any case).                                           *)
+TagAtom == Atom("T")
+RECURSIVE Tagged(_)
+Tagged(c) == IF c.k = "atom" THEN c
+             ELSE IF c.k = "slice"
+                  THEN C("slice", "", 0, <<Tagged(c.items[1]), Tagged(c.items[2]),
+                                           IF c.items[3] = Atom("None") THEN TagAtom ELSE Tagged(c.items[3])>>)
+             ELSE C(c.k, c.a, c.m, [i \in 1..Len(c.items) |-> Tagged(c.items[i])] \o <<TagAtom>>)
+TaggingLemma == /\ Len(hist) >= 1 /\ Mode # "real" => Alone(Tagged(A), FALSE) = Tagged(Alone(A, FALSE))
+                /\ Pair => /\ Shared(Tagged(A), Tagged(B)) = Shared(A, B)
+                           /\ After(Tagged(A), Tagged(B), FALSE) = Tagged(After(A, B, FALSE))
+                           /\ Cause(Tagged(B), After(Tagged(A), Tagged(B), FALSE)) = Cause(B, After(A, B, FALSE))
+                           /\ ~PyEq(A, B) => ~PyEq(Tagged(A), Tagged(B))    \* (but (0, 0) == (0,) * 2 while (0, 0, T) # (0, T) * 2)
 
+(* near misses: constants that Python does NOT consider equal although they are built alike -- the same  *)
+(* items in another container or with another repeat factor, or one item of another value.  They must    *)
+(* never share a slot; they are published so that the binding exercises exactly these on the real pool.  *)
+Near(a, b) == /\ a.k # "atom" /\ b.k # "atom" /\ ~PyEq(a, b)
+              /\ Len(a.items) = Len(b.items) /\ Len(a.items) > 0
+              /\ \/ \A i \in 1..Len(a.items) : PyEq(a.items[i], b.items[i])                    \* other kind / repeat factor
+                 \/ /\ a.k = b.k /\ a.m = b.m                                                    \* exactly one item differs
+                    /\ Cardinality({i \in 1..Len(a.items) : ~PyEq(a.items[i], b.items[i])}) = 1
+NearMissesNotShared == Pair => (Near(A, B) => ~Shared(A, B))
+
+\* ret / tret: what the implementation-shaped pool hands out (plain and tagged form), published only where it
+\* differs from the constant as written (a hazard)
 PublishConst == (Dump /\ Mode # "real" /\ Len(hist) = 1) =>
-                  PrintT("@@" \o ToJson([c |-> hist[1], obs |-> Obs(hist[1]), dedup |-> Key(hist[1]) # NoKey]))
-PublishPair == (Dump /\ Pair /\ (Shared(hist[1], hist[2]) \/ PyEq(hist[1], hist[2]))) =>
-                  PrintT("@@" \o ToJson([a |-> hist[1], b |-> hist[2], shared |-> Shared(hist[1], hist[2]),
-                                          obseq |-> ObsEq(hist[1], hist[2]), cause |-> Cause(hist[1], hist[2]),
-                                          fshared |-> FShared(hist[1], hist[2])]))
+                  LET r == Alone(A, FALSE) hz == ~ObsEq(r, A) IN
+                  PrintT("@@" \o ToJson([c |-> A, obs |-> Obs(A), dedup |-> Key(A) # NoKey,
+                                          tc |-> Tagged(A), tobs |-> Obs(Tagged(A)),
+                                          cause |-> Cause(A, r),
+                                          ret |-> IF hz THEN Obs(r) ELSE Atom("None"),
+                                          tret |-> IF hz THEN Obs(Alone(Tagged(A), FALSE)) ELSE Atom("None")]))
+PublishPair == (Dump /\ Pair /\ (Shared(A, B) \/ PyEq(A, B) \/ Near(A, B))) =>
+                  LET r == After(A, B, FALSE) hz == ~ObsEq(r, B) IN
+                  PrintT("@@" \o ToJson([a |-> A, b |-> B, shared |-> Shared(A, B), obseq |-> ObsEq(A, B),
+                                          cause |-> Cause(B, r), near |-> Near(A, B),
+                                          fixed_ok |-> ObsEq(After(A, B, TRUE), B),
+                                          ret |-> IF hz THEN Obs(r) ELSE Atom("None"),
+                                          tret |-> IF hz THEN Obs(After(Tagged(A), Tagged(B), FALSE)) ELSE Atom("None")]))
 \* B3 verdict for one real slot group
 PublishReal == (Mode = "real" /\ grp > 0 /\ Len(hist) = Len(Records[grp].consts)) =>
                   PrintT("@@" \o ToJson([slot |-> Records[grp].slot, n |-> Len(hist),
                                           ok |-> \A i \in 1..Len(hist) : ObsEq(hist[1], hist[i]),
                                           bad |-> {i \in 1..Len(hist) : ~ObsEq(hist[1], hist[i])},
-                                          causes |-> {Cause(hist[1], hist[i]) : i \in 1..Len(hist)},
+                                          causes |-> {Cause(hist[i], hist[1]) : i \in 1..Len(hist)},
                                           model_shared |-> \A i \in 1..Len(hist) : Shared(hist[1], hist[i])]))
 =============================================================================
